@@ -25,6 +25,7 @@ const (
 )
 
 type c17Case struct {
+	Span     bool   `json:"span_cache,omitempty"`
 	Fn       string `json:"fn"`
 	Type     int8   `json:"type,omitempty"`
 	InputHex string `json:"input_hex"`
@@ -139,17 +140,32 @@ func c17Admissible(fn string, b []byte, t int8) (mustFail bool, ids []int32, cau
 }
 
 func c17Mem(c *mc.Ctx, fn string, b []byte, t int8, desc string) {
+	c17MemSpan(c, fn, b, t, desc, false)
+	if fn == "ReadString" || fn == "ReadBinary" || fn == "ReadMessageBegin" {
+		c17MemSpan(c, fn, b, t, desc, true) // the allocator setting must not change the classification
+	}
+}
+
+func c17MemSpan(c *mc.Ctx, fn string, b []byte, t int8, desc string, span bool) {
 	c.Eval(1)
 	mustFail, ids, cause := c17Admissible(fn, b, t)
 	var err error
-	if pi := mc.Try(func() { err = c17Fns[fn](b, t) }); pi != nil {
+	if span {
+		thrift.SetSpanCache(true)
+		desc += ", span cache on"
+	}
+	pi := mc.Try(func() { err = c17Fns[fn](b, t) })
+	if span {
+		thrift.SetSpanCache(false)
+	}
+	if pi != nil {
 		return // panics are C03's business
 	}
 	if err == nil {
 		if mustFail {
 			// the cause exists but no failure names it (also reported by C03/C08 from their side)
 			c.Violate("mem", fmt.Sprintf("C17|Binary.%s|malformed-input-not-reported:%s", fn, cause), fmt.Sprintf("Binary.%s(type %d) on %s (%s; cause: %s): returned a nil error, so no exception names the cause", fn, t, mc.Hex(b), desc, cause),
-				c17Case{Fn: fn, Type: t, InputHex: hex.EncodeToString(b), Desc: desc})
+				c17Case{Span: span, Fn: fn, Type: t, InputHex: hex.EncodeToString(b), Desc: desc})
 		}
 		return
 	}
@@ -163,7 +179,7 @@ func c17Mem(c *mc.Ctx, fn string, b []byte, t int8, desc string) {
 	}
 	bad := func(class, format string, a ...interface{}) {
 		c.Violate("mem", fmt.Sprintf("C17|Binary.%s|%s", fn, class), fmt.Sprintf("Binary.%s(type %d) on %s (%s; cause: %s): ", fn, t, mc.Hex(b), desc, cause)+fmt.Sprintf(format, a...),
-			c17Case{Fn: fn, Type: t, InputHex: hex.EncodeToString(b), Desc: desc})
+			c17Case{Span: span, Fn: fn, Type: t, InputHex: hex.EncodeToString(b), Desc: desc})
 	}
 	var pe *thrift.ProtocolException
 	if !errors.As(err, &pe) {
@@ -236,8 +252,13 @@ func c17StreamOne(c *mc.Ctx, k c17Stream, enc []byte) {
 		bad("source-error-not-matchable", "the failure %q (%T) does not match the source's error under errors.Is", err, err)
 		return
 	}
-	if (k.Env.Err == 2 || k.Env.Err == 3) && !errors.Is(err, errX) {
+	if (k.Env.Err == 2 || k.Env.Err == 3 || k.Env.Err == 5) && !errors.Is(err, errX) {
 		bad("source-error-not-matchable", "the failure %q does not match the wrapped sentinel under errors.Is", err)
+		return
+	}
+	var te *typedErr
+	if k.Env.Err == 5 && (!errors.As(err, &te) || te != E) {
+		bad("source-error-not-matchable", "the failure %q no longer carries the source's own error value (errors.As to its type fails)", err)
 	}
 }
 
@@ -389,13 +410,13 @@ func c17Run(c *mc.Ctx) {
 	c.R.Distinct += cuts
 	c.Count("stream-cut-positions", cuts)
 	c.Sample("stream", c17Stream{Method: "ReadString", ValueHex: "0000000568656c6c6f", Cut: 6, Env: EnvCfg{Chunk: 1, ErrWithLast: true, Err: 3}})
-	c.Done(fmt.Sprintf("stream: %d values x every cut position x 4 terminal errors x 2 end styles x 3 chunk policies on every BufferReader method", len(vals)))
+	c.Done(fmt.Sprintf("stream: %d values x every cut position x 6 terminal errors (incl. one that carries its own Thrift type id and wraps the cause) x 2 end styles x 3 chunk policies on every BufferReader method", len(vals)))
 }
 
 func init() {
 	Register(&Check{
 		ID: "C17", Level: "fault_enumeration",
-		Rule: "in-memory: every failing call of the 13 Binary.Read* functions, ReadMessageBegin and Skip met on all grammar-alphabet strings up to length L, all 65536 version halves, every prefix/perturbation of the value trees and nesting chains 60..70, classified by an independent reference into truncated / unknown type / negative size / bad version / depth (multi-cause inputs admit a set of ids); stream: every BufferReader method on streams cut at EVERY byte position x 4 terminal error values x end style x chunk policy: the failure must match the source error under errors.Is; distinct = distinct inputs / cut positions",
+		Rule: "in-memory: every failing call of the 13 Binary.Read* functions, ReadMessageBegin and Skip met on all grammar-alphabet strings up to length L, all 65536 version halves, every prefix/perturbation of the value trees and nesting chains 60..70, classified by an independent reference into truncated / unknown type / negative size / bad version / depth (multi-cause inputs admit a set of ids); stream: every BufferReader method on streams cut at EVERY byte position x 6 terminal error values x end style x chunk policy: the failure must match the source error under errors.Is; distinct = distinct inputs / cut positions",
 		Assumptions: []string{
 			"nesting level 64 may fail or succeed; if it fails the id must be DEPTH_LIMIT",
 			"a negative name length inside a message header is reported through the header reader's generic error: NEGATIVE_SIZE and INVALID_DATA are both admissible",
@@ -418,7 +439,7 @@ func init() {
 			}
 			replayAs(raw, func(k c17Case) {
 				b, _ := hex.DecodeString(k.InputHex)
-				c17Mem(c, k.Fn, b, k.Type, k.Desc)
+				c17MemSpan(c, k.Fn, b, k.Type, k.Desc, k.Span)
 			})
 		},
 	})
